@@ -235,8 +235,24 @@ class Extractor:
         return '\n'.join(self.out.lines) + '\n'
 
     def _process(self, template_path, external):
-        lines = open(template_path).read().split('\n')
+        raw_lines = open(template_path).read().split('\n')
         tname = os.path.relpath(template_path, self.verif)
+        # feature-conditional template text:  //@ if-feature X  ...  //@ else-feature  ...  //@ end-feature
+        lines, active = [], [True]
+        for l in raw_lines:
+            st = l.strip()
+            if st.startswith('//@ if-feature '):
+                active.append(active[-1] and (st.split()[2] in self.cfg['features']))
+                lines.append('')
+            elif st == '//@ else-feature':
+                prev = active.pop()
+                active.append(active[-1] and not prev)
+                lines.append('')
+            elif st == '//@ end-feature':
+                active.pop()
+                lines.append('')
+            else:
+                lines.append(l if active[-1] else '')
         i = 0
         cur = None      # FnSpec being collected
         cur_scope = None  # nested fn the following anchors are relative to
@@ -353,11 +369,17 @@ class Extractor:
 
     # -------------------------------------------------------------------------------------
     def _def(self, rel, name, opts):
+        mods = rel.split('::')[1:]
+        rel = rel.split('::')[0]
         src = self.src(rel)
+        lo, hi = 0, None
+        for mname in mods:
+            mit = src.find('mod', mname, lo, hi, cfg=self.cfg)
+            lo, hi = mit.body_open + 1, mit.end - 1
         it = None
         for kind in ('struct', 'enum', 'type', 'trait'):
             try:
-                it = src.find(kind, name, cfg=self.cfg)
+                it = src.find(kind, name, lo, hi, cfg=self.cfg)
                 break
             except LostAnchor:
                 continue
@@ -370,6 +392,16 @@ class Extractor:
         line0 = src.line_of(it.start)
         text = src.text[it.start:it.end]
         text = global_rules(text, rel, line0, self.log, derive_keep=keep)
+        if 'pub' in opts:
+            # R3 variant: everything visible (needed where a std trait impl, e.g. Default, carries an ensures)
+            text = re.sub(r'(^|\n)(\s*)(struct|enum)\b', r'\1\2pub \3', text, count=1)
+            out, depth = [], 0
+            for l in text.split('\n'):
+                if depth == 1 and it.kind == 'struct':
+                    l = re.sub(r'^(\s*)([a-z_][A-Za-z0-9_]*)\s*:', r'\1pub \2:', l)
+                depth += l.count('{') - l.count('}')
+                out.append(l)
+            text = '\n'.join(out)
         self.out.emit(text, 'repo', 'def::' + name, rel, src.line_of(it.attr_end))
         self.log.items.append(dict(kind='def', name=name, file=rel, line=src.line_of(it.attr_end)))
 
@@ -591,6 +623,21 @@ class Extractor:
                 m = find_anchor(seg, e['frm'], None)
                 self.log.rw(e['rule'], rel, line0 + text.count('\n', 0, lo + m.start()), norm(e['frm']), norm(e['to']))
                 edits.append((lo + m.start(), m.end() - m.start(), e['to'], False))
+        # rule R7: `fn f(mut self, ..) { B }` -> `fn f(self, ..) { let mut this = self; B[self := this] }`
+        if has_body and not spec.external:
+            msig = re.search(r'\(\s*mut\s+self\b', text[:body_open])
+            if msig:
+                a = text.index('mut', msig.start())
+                edits.append((a, len('mut') + 1, '', False))
+                edits.append((body_open + 1, 0, ' let mut this = self;', False))
+                n_self = 0
+                for mm in re.finditer(r'\bself\b', text[body_open:]):
+                    pos = body_open + mm.start()
+                    if mask[pos]:
+                        edits.append((pos, 4, 'this', False))
+                        n_self += 1
+                self.log.rw('R7', rel, line0, 'fn %s(mut self, ..) { B }' % spec.name,
+                            'fn %s(self, ..) { let mut this = self; B[self := this] }  (%d occurrences)' % (spec.name, n_self))
         if kind == 'twinfn' and spec.twin_as:
             m = re.search(r'\bfn\s+' + re.escape(spec.name) + r'\b', text)
             edits.append((m.start(), m.end() - m.start(), 'fn ' + spec.twin_as, False))
